@@ -1468,6 +1468,12 @@ REGIONS = {
     "clip_none": True,       # ptw "clip" with a_min=None or a_max=None evaluated on a Linearization
     "imag_multi": True,      # .imag of an operator whose target is a MultiDomain
     "lh_plus_plain": True,   # LikelihoodEnergyOperator + (energy that is not a LikelihoodEnergyOperator)
+    # derivative of "sinc" for 0 < |v| < 1/64: the library's (cos(pi v)-sinc(v))/v cancels (absolute error
+    # eps/|v|, i.e. the derivative is wrong by O(1) relative for |v| < 1e-8); fixes/C03_sinc_small_argument.diff
+    "sinc_small_argument": True,
+    # an index that occurs in a single einsum operand and not in the output (plain sum over that operand):
+    # the adjoint Jacobian asks numpy.einsum to create an axis and raises; fixes/C03_einsum_lonely_sum_index.diff
+    "einsum_lonely_sum_index": True,
 }
 
 REAL_SHAPES = [[4], [6], [2, 2], [2, 3], [3, 2], [2, 4]]
@@ -1608,8 +1614,43 @@ def _gen_ptw(cx, typ, depth):
         sub = _positive(cx, typ, sub) if r.b() else ["mulc", 0.25, ["ptw", "tanh", [], sub, 0], 0]
     elif name == "tan" or (cx.cplx and name in ("tanh", "sigmoid", "arctan", "softplus")):
         sub = ["mulc", 0.25, sub, 0] if r.b() else sub
+    sub = _rescale(cx, name, args, sub)
     how = r.i(0, 2) if name == "abs" else r.i(0, 1)
     return ["ptw", name, args, sub, how]
+
+
+# entries whose value stays bounded (or grows at most linearly) for large arguments
+BOUNDED = ["softplus", "sigmoid", "tanh", "arctan", "abs", "absolute", "sign", "unitstep", "clip", "sinc", "sin",
+           "cos", "tan"]
+
+
+def _rescale(cx, name, args, sub):
+    """affine pre-factor 2^k (and a shift) in front of a table entry: moves the argument (|x| <~ 2 in the
+    plain trees) into the saturated / asymptotic regime (|arg| up to ~100) or towards 0 (down to 2^-40)"""
+    r = cx.r
+    if not r.b(0.3):
+        return sub
+    if name in BOUNDED:
+        ks = [3, 4, -10, -24, -40] if cx.cplx else [4, 5, 6, 6, -10, -24, -40]
+    elif name in ("sqrt", "log", "log10"):
+        ks = [-8, 4, 8]
+    elif name == "reciprocal":
+        ks = [4, 8, -3]
+    elif name == "power":
+        e = args[0]
+        ks = [-3, 2] if not isinstance(e, dict) and 0 < e <= 2 else [1]
+    elif name == "log1p":
+        ks = [-10, -24, -40] + ([4, 8] if sub[0] != "mulc" else [])
+    else:       # exp, expm1, sinh, cosh, exponentiate
+        ks = [2, -10, -24, -40]
+    k = r.ch(ks)
+    c = 2. ** k
+    if name not in POSONLY and not (name == "log1p" and k > 0) and r.b():
+        c = -c
+    sub = ["mulc", c, sub, 0]
+    if name in BOUNDED and k > 0 and r.b():
+        sub = ["addc", r.ch([-32., 32., 8., -8.]), sub, 0]
+    return sub
 
 
 def _linspec(cx, typ):
@@ -1767,6 +1808,14 @@ def gen(cx, typ, depth):
             if r.b():
                 side.reverse()
             return ["pins", key, inner, ["bin", o] + side]
+        if w == "mle" and r.b(0.7):
+            return _gen_mlen(cx, "D", depth)
+        if w == "jaxop" and r.b(0.25):
+            a, b = gen(cx, "D", depth - 1), gen(cx, "D", r.i(0, depth - 1))
+            if cx.cplx:
+                a = ["addc", {"re": 0.0, "im": 0.5}, a, 0]
+                b = ["addc", {"re": 0.0, "im": 0.5}, b, 0]
+            return ["jaxop2", a, b]
         if w == "mle":
             ss = "ij,ij->ij" if cx.rank2 else "i,i->i"
             a = gen(cx, "D", depth - 1)
@@ -1796,6 +1845,8 @@ def gen(cx, typ, depth):
             return ["vdot", gen(cx, "D", depth - 1), gen(cx, "D", r.i(0, depth - 1))]
         if w == "vdotf":
             return ["vdotf", cx.vec(cx.size), gen(cx, "D", depth - 1)]
+        if w == "mle" and r.b(0.7):
+            return _gen_mlen(cx, "S", depth)
         if w == "mle":
             ss = "ij,ij->" if cx.rank2 else "i,i->"
             return ["mle", ss, gen(cx, "D", depth - 1), gen(cx, "D", r.i(0, depth - 1))]
@@ -1807,14 +1858,63 @@ def gen(cx, typ, depth):
         w = r.ch(opts)
         if w == "sumD":
             return [_contr(cx, "D", cx.u["pc"]), cx.u["pc"], gen(cx, "D", depth - 1)]
+        if w == "mle" and r.b(0.7):
+            return _gen_mlen(cx, "P", depth)
         if w == "mle":
             ss = "ij,ij->j" if cx.u["pc"] == 0 else "ij,ij->i"
             return ["mle", ss, gen(cx, "D", depth - 1), gen(cx, "D", r.i(0, depth - 1))]
         return _gen_generic(cx, "P", depth)
     # T
-    if r.b(2. / 3):
+    w = r.i(0, 11)
+    if w < 6:
         return ["join", gen(cx, "D", depth - 1), gen(cx, "D", r.i(0, depth - 1))]
+    if w < 8:
+        # sum of two operators whose MultiDomain targets overlap in one key (_OpSum / MultiField.unite)
+        return ["tadd", r.ch(["x", "y"]), gen(cx, "T", depth - 1), gen(cx, "D", r.i(0, depth - 1))]
+    if w == 8 and f.get("jaxop"):
+        sub = gen(cx, "D", depth - 1)
+        if cx.cplx:
+            sub = ["addc", {"re": 0.0, "im": 0.5}, sub, 0]
+        return ["jaxopT", sub]
     return _gen_generic(cx, "T", depth)
+
+
+def _gen_mlen(cx, typ, depth):
+    """MultiLinearEinsum with 2-3 operands carrying the indices of D or of P (= D without space pc), a drawn
+    (mostly non-alphabetical) key_order, static fields at drawn positions and a drawn `optimize`"""
+    r = cx.r
+    rank2 = cx.rank2
+    dss = "ij" if rank2 else "i"
+    pss = None
+    if rank2 and cx.u["pc"] is not None:
+        pss = "j" if cx.u["pc"] == 0 else "i"
+        psize = cx.u["spaces"][1 - cx.u["pc"]][1]
+    nops = r.ch([2, 3, 3])
+    keys = ["p", "q", "r", "s"]
+    r.r.shuffle(keys)
+    keys = keys[:nops]
+    sss, operands = [], []
+    kinds = ["Dt"] + [r.ch(["Dt", "Dt", "Df"] + (["Pt", "Pt", "Pf"] if pss else [])) for _ in range(nops - 1)]
+    r.r.shuffle(kinds)
+    first = True
+    for kd in kinds:
+        d = depth - 1 if first else r.i(0, depth - 1)
+        if kd == "Dt":
+            sss.append(dss)
+            operands.append(gen(cx, "D", d))
+            first = False
+        elif kd == "Pt":
+            sss.append(pss)
+            operands.append(gen(cx, "P", d))
+        elif kd == "Df":
+            sss.append(dss)
+            operands.append({"f": cx.vec(cx.size)})
+        else:
+            sss.append(pss)
+            operands.append({"f": cx.vec(psize)})
+    out = {"D": dss, "S": "", "P": pss}[typ]
+    opt = r.ch(["optimal", "optimal", "greedy", True, False])
+    return ["mlen", out, opt, keys, sss] + operands
 
 
 def _universe(r, cplx, small):
@@ -1882,7 +1982,9 @@ def _gen_energy(cx, depth):
     typ = r.ch(["D", "D", "P"] if cx.u["pc"] is not None else ["D"])
     n = cx.size if typ == "D" else cx.u["spaces"][1 - cx.u["pc"]][1]
     kinds = ["gauss"] if cx.cplx else \
-        ["gauss", "gauss", "poisson", "poisson", "bernoulli", "studentt", "sq2norm", "quad"]
+        ["gauss", "gauss", "poisson", "poisson", "bernoulli", "studentt", "sq2norm", "quad", "invgamma"]
+    if not cx.cplx and cx.feats.get("jaxlh") and r.b(0.4):
+        kinds += ["jaxlh"]
     k = r.ch(kinds)
     sub = gen(cx, typ, depth - 1)
     if cx.cplx:
@@ -1907,6 +2009,13 @@ def _gen_energy(cx, depth):
             spec = ["studentt", r.dynz(0.5, 4.0, 4, signed=False)]
     elif k == "sq2norm":
         spec = ["sq2norm"]
+    elif k == "invgamma":
+        beta = [r.dynz(0.25, 2.0, 8, signed=False) for _ in range(n)]
+        alpha = [r.dy(-0.75, 2.0, 8) for _ in range(n)] if r.b() else r.dy(-0.75, 2.0, 8)
+        spec = ["invgamma", beta, alpha]
+        sub = _positive(cx, typ, sub)
+    elif k == "jaxlh":
+        spec = ["jaxlh", cx.vec(n), [r.dynz(0.25, 2.0, 8, signed=False) for _ in range(n)]]
     else:
         spec = ["quad", [r.dynz(0.25, 2.0, 8) for _ in range(n)]]
     return ["energy", spec, sub, r.i(0, 1)]
@@ -1914,7 +2023,8 @@ def _gen_energy(cx, depth):
 
 _ALLKINDS = {"pins", "var", "ptw", "linpre", "lin", "neg", "mulc", "addc", "subc", "rsubc", "divc", "rdivc", "powc",
              "rpowc", "addf", "subf", "mulf", "divf", "real", "imag", "conj", "bin", "sum", "integrate", "bcast",
-             "bcastS", "vdot", "vdotf", "join", "get", "duckr", "mle", "jaxop", "energy", "esum", "escale", "ham"}
+             "bcastS", "vdot", "vdotf", "join", "get", "duckr", "mle", "jaxop", "energy", "esum", "escale", "ham",
+             "mlen", "tadd", "jaxop2", "jaxopT", "avg"}
 
 
 def _strip_nonholo(n):
@@ -1933,23 +2043,36 @@ def _strip_nonholo(n):
 
 def _gen_energy_root(cx, depth):
     r = cx.r
-    opts = ["plain"] * 4 + ["esum"] * 3 + ["escale"]
+    opts = ["plain"] * 4 + ["esum"] * 3 + ["escale"] * 2
     if cx.feats.get("ham"):
         opts += ["ham"] * 2
+    if cx.feats.get("avg"):
+        opts += ["avg"] * 2
     w = r.ch(opts)
     if w == "plain":
         return _gen_energy(cx, depth)
     if w == "esum":
         return _esum(cx, depth)
     if w == "escale":
-        return ["escale", r.dynz(0.25, 3.0, 8, signed=False), _gen_energy(cx, depth)]
+        inner = _gen_energy(cx, depth) if r.b(0.7) else _esum(cx, depth)
+        return ["escale", r.dynz(0.25, 3.0, 8, signed=False), inner, r.i(0, 3)]
+    if w == "avg":
+        inner = _gen_energy(cx, depth) if r.b(0.6) else (["ham", _gen_energy(cx, depth)] if cx.feats.get("ham")
+                                                         else _esum(cx, depth))
+        ns = r.ch([1, 2, 2, 3])
+        smp = []
+        for _ in range(ns):
+            smp.append({k: [({"re": r.dy(-0.25, 0.25, 16), "im": r.dy(-0.25, 0.25, 16)} if cx.cplx
+                             else r.dy(-0.25, 0.25, 16)) for _ in range(cx.size)]
+                        for k in (cx.u["keys"] or [""])})
+        return ["avg", smp, inner]
     inner = _gen_energy(cx, depth) if r.b() else _esum(cx, depth)
     return ["ham", inner]
 
 
 def _esum(cx, depth):
     a, b = _gen_energy(cx, depth), _gen_energy(cx, cx.r.i(1, depth))
-    lh = ("gauss", "poisson", "bernoulli", "studentt")
+    lh = ("gauss", "poisson", "bernoulli", "studentt", "invgamma", "jaxlh")
     if a[1][0] in lh and b[1][0] not in lh and not REGIONS["lh_plus_plain"]:
         a, b = b, a
     return ["esum", a, b]
@@ -2029,6 +2152,314 @@ def ptw_table_cases(tier, seed):
                 continue
             for j in range(per if not cplx else max(2, per // 2)):
                 res.append(make_recipe((seed, j, 4711), tier, cplx, {"T": True}, "ptw:" + name))
+    return res
+
+
+
+# ====================================================================== ptw_sweep: every regime of every entry
+# Each table entry on a grid of dyadic arguments m*2^k (m in {1, 1.25, 1.5, 1.75}, k = -40..8, both signs), on
+# a linear dyadic grid j + l/8 (j up to 64 resp. 448; covers implementation thresholds such as the library's
+# |v| > 33 branches of softplus) and at 0 where the entry is differentiable there; complex arguments for the
+# holomorphic entries (|Re|, |Im| <= 112: beyond that the library's closed forms square overflowing
+# intermediates).  Reference: the harness' own jnp expression; f' and f'' by forward-mode AD (jax.jvp).
+NPT = 16
+SWEEP_TOL = 1e-11
+MANT = [1.0, 1.25, 1.5, 1.75]
+SWEEP_PRE = ["sin", "exp", "tanh", "cosh", "arctan", "sinh"]
+
+
+def _sweep_args(rec, n):
+    """recipe args -> (numpy arrays of length n for the reference, raw list for the library call)"""
+    res = []
+    for a in rec["args"]:
+        if a is None:
+            res.append(None)
+        elif isinstance(a, dict) and "f" in a:
+            res.append(nx.arr(a["f"]).astype(np.float64))
+        else:
+            res.append(np.full(n, float(a)))
+    return res
+
+
+def _sweep_valid(name, z, args, cplx):
+    """mask of the points inside the entry's documented range (where it is differentiable)"""
+    z = np.asarray(z)
+    ok = np.isfinite(z)
+    with np.errstate(all="ignore"):
+        if cplx:
+            ok &= (np.abs(z.real) <= 112) & (np.abs(z.imag) <= 112)
+
+            def offcut(w):      # away from 0 and from the negative real axis (branch cut of log/sqrt/power)
+                return (w != 0) & ((w.real > 0) | (np.abs(w.imag) * 16 >= np.abs(w.real)))
+            nonint = name == "power" and not _is_posint(args[0])
+            if name in ("sqrt", "log", "log10") or nonint:
+                ok &= offcut(z)
+            elif name == "log1p":
+                ok &= offcut(1 + z)
+            elif name == "reciprocal":
+                ok &= z != 0
+            elif name == "tan":
+                ok &= np.abs(np.cos(z)) >= 1. / 64
+            elif name in ("tanh", "sigmoid"):
+                ok &= np.abs(np.cosh(z)) >= 1. / 64
+            elif name == "arctan":
+                ok &= (np.abs(1 + z * z) >= 1. / 64) & ((np.abs(z.real) * 16 >= np.abs(z.imag)) | (np.abs(z.imag) <= 0.9))
+            elif name == "softplus":
+                w = 1 + np.exp(np.where(z.real <= 33, z, 0))
+                ok &= np.where(z.real <= 33, (np.abs(w) >= 1. / 64) & offcut(w), np.abs(z.imag) <= 2)
+            elif name in KINK:
+                ok &= False
+        else:
+            ok &= np.abs(z) <= 448
+            nonint = name == "power" and not _is_posint(args[0])
+            if name in ("sqrt", "log", "log10") or nonint:
+                ok &= z > 0
+            elif name == "log1p":
+                ok &= z > -1
+            elif name in ("reciprocal", "abs", "absolute", "sign", "unitstep"):
+                ok &= z != 0
+            elif name == "clip":
+                for b in args:
+                    if b is not None:
+                        ok &= z != b
+    return ok
+
+
+def _sweep_reference(name, z, args):
+    """(f, f', f'') of the entry at the points z by the harness' jnp table and forward-mode AD"""
+    import jax
+    import jax.numpy as jnp
+    JP, _ = _tables()
+    a = []
+    for t in args:
+        a.append(None if t is None else jnp.asarray(t))
+    if name == "exponentiate" and np.iscomplexobj(z):
+        def F(v):
+            return jnp.exp(v * jnp.log(a[0]))
+    elif name == "exponentiate":
+        def F(v):
+            return jnp.power(a[0], v)
+    else:
+        def F(v):
+            return JP[name](v, *a)
+    x = jnp.asarray(z)
+    one = jnp.ones_like(x)
+
+    def dF(v):
+        return jax.jvp(F, (v,), (one,))[1]
+
+    with np.errstate(all="ignore"), jax.disable_jit():
+        f = F(x)
+        f1, f2 = jax.jvp(dF, (x,), (one,))
+    return np.asarray(f), np.asarray(f1), np.asarray(f2)
+
+
+def _sweep_regimes(name, z, cplx):
+    z = np.asarray(z)
+    m = np.maximum(np.abs(z.real), np.abs(z.imag)) if cplx else np.abs(z)
+    bins = [("0", m == 0), ("<2^-20", (m > 0) & (m < 2. ** -20)), ("2^-20..2^-4", (m >= 2. ** -20) & (m < 2. ** -4)),
+            ("2^-4..4", (m >= 2. ** -4) & (m < 4)), ("4..33", (m >= 4) & (m <= 33)), ("33..128", (m > 33) & (m <= 128)),
+            (">128", m > 128)]
+    cl = []
+    for tag, sel in bins:
+        if not np.any(sel):
+            continue
+        if cplx or tag == "0":
+            cl.append("%s|%s" % (name, tag))
+        else:
+            if np.any(sel & (z > 0)):
+                cl.append("%s|+%s" % (name, tag))
+            if np.any(sel & (z < 0)):
+                cl.append("%s|-%s" % (name, tag))
+    return cl
+
+
+def _rowclose(a, ref, bound, kind, axis, detail=""):
+    """|a - ref| <= bound[i] for every entry of row i (axis=0) / column i (axis=1)"""
+    a, ref = np.asarray(a), np.asarray(ref)
+    require(a.shape == ref.shape, kind + ":shape", f"{a.shape} vs {ref.shape}")
+    require(bool(np.all(np.isfinite(a))), kind + ":nonfinite", f"library result\n{a}\nreference\n{ref} {detail}")
+    b = bound[:, None] if (a.ndim == 2 and axis == 0) else bound[None, :] if a.ndim == 2 else bound
+    err = np.abs(a - ref)
+    if np.any(err > b):
+        i = np.unravel_index(np.argmax(err / b), err.shape)
+        raise Violation(kind, f"entry {i}: library {a[i]!r} reference {ref[i]!r} err {err[i]:.3e} "
+                              f"allowed {np.broadcast_to(b, err.shape)[i]:.3e} {detail}")
+
+
+def check_sweep(rec):
+    name, cplx, wm = rec["name"], bool(rec["cplx"]), bool(rec["wm"])
+    dt = np.complex128 if cplx else np.float64
+    pts = nx.arr(rec["pts"]).astype(dt)
+    n = pts.size
+    args = _sweep_args(rec, n)
+    if not np.all(_sweep_valid(name, pts, args, cplx)):
+        raise Discard()
+    if name == "exponentiate" and not np.all(args[0] > 0):
+        raise Discard()
+    f, f1, f2 = _sweep_reference(name, pts, args)
+    if not (np.all(np.isfinite(f)) and np.all(np.isfinite(f1)) and np.all(np.isfinite(f2))):
+        raise Discard()
+    dom = ift.DomainTuple.make(ift.UnstructuredDomain(n) if rec["dom"] == "un" else ift.RGSpace(n, distances=0.5))
+    d = 2. ** np.array(rec["pre"], dtype=np.float64) if rec["pre"] is not None else np.ones(n)
+    xf = ift.makeField(dom, np.array(pts / d))          # exact: d is a power of two
+    largs = []
+    for a in rec["args"]:
+        if isinstance(a, dict) and "f" in a:
+            largs.append(ift.makeField(dom, nx.arr(a["f"]).astype(np.float64)))
+        else:
+            largs.append(a)
+    ident = ift.ScalingOperator(dom, 1.)
+    inner = ident if rec["pre"] is None else ift.DiagonalOperator(ift.makeField(dom, d))
+    route = rec["route"]
+    with np.errstate(all="ignore"):
+        if route < 4:
+            if route == 0:
+                op = inner.ptw(name, *largs)
+            elif route == 1:
+                op = getattr(inner, name)(*largs)
+            elif route == 2:
+                op = ident.ptw_pre(name, *largs) @ inner
+            else:
+                op = getattr(ident, name + "_pre")(*largs) @ inner
+            require(op.domain is dom and op.target is dom, "sweep_domain", f"{op.domain} {op.target}")
+            plain = op(xf)
+            lin = op(ift.Linearization.make_var(xf, wm))
+        else:
+            def run(v):
+                y = v if rec["pre"] is None else inner(v)
+                return y.ptw(name, *largs) if route == 4 else getattr(y, name)(*largs)
+            plain = run(xf)
+            lin = run(ift.Linearization.make_var(xf, wm))
+        require(lin.jac is not None and lin.jac.domain is dom and lin.jac.target is dom, "sweep_jac_domain", "")
+        require(bool(lin.want_metric) == wm and lin.metric is None, "sweep_metric_flag", "")
+        pv, lv = nx.flat(plain), nx.flat(lin.val)
+        if not cplx:
+            require(not np.iscomplexobj(pv) and not np.iscomplexobj(lv), "sweep_value_dtype", "")
+        # allowed error: SWEEP_TOL relative to the result, to its conditioning w.r.t. the argument
+        # (|x f'|: covers argument reduction / composed formulas in either implementation) and to the
+        # function's natural scale 1 (closed forms like 1 - tanh^2 carry an absolute error eps)
+        bv = SWEEP_TOL * (np.abs(f) + np.abs(pts * f1) + 1.)
+        bd = SWEEP_TOL * (np.abs(f1) + np.abs(pts * f2) + 1.) * np.abs(d)
+        info = f"\nname={name} args={rec['args']}\npoints={pts}"
+        _rowclose(pv, f, bv, "sweep_value_vs_reference", 0, info)
+        _rowclose(lv, pv, 1e-13 * (np.abs(f) + 1.), "sweep_lin_val_vs_plain", 0, info)
+        D = np.diag(f1 * d)
+        if cplx:
+            R = np.block([[D.real, -D.imag], [D.imag, D.real]])
+            Jt = nx.dense_real(lin.jac, nx.TIMES)
+            Ja = nx.dense_real(lin.jac, nx.ADJ)
+            bd = np.concatenate([bd, bd])
+        else:
+            R = D
+            Jt = nx.dense(lin.jac, nx.TIMES, dtype=np.float64)
+            Ja = nx.dense(lin.jac, nx.ADJ, dtype=np.float64)
+        _rowclose(Jt, R, bd, "sweep_derivative_vs_reference", 0, info + f"\nf'={f1}")
+        _rowclose(Ja, R.T, bd, "sweep_adjoint_vs_transpose", 1, info + f"\nf'={f1}")
+    cl = ["fn:" + name, "route%d" % route, "complex" if cplx else "real", "want_metric" if wm else "no_metric"]
+    cl += _sweep_regimes(name, pts, cplx)
+    for a in rec["args"]:
+        if a is None:
+            cl.append(name + "(None_arg)")
+        elif isinstance(a, dict):
+            cl.append(name + "(field_arg)")
+        elif isinstance(a, int):
+            cl.append(name + "(int_arg)")
+    if rec["pre"] is not None:
+        cl.append("inner_jacobian")
+    return dict(nontrivial=len(_sweep_regimes(name, pts, cplx)) >= 3, classes=cl)
+
+
+def _sweep_recipe(seed, name, cplx, j):
+    r = Rnd(int(hashlib.sha256(repr(("sweep", seed, name, cplx, j)).encode()).hexdigest()[:16], 16))
+    n = NPT
+    # ---- arguments of the entry
+    args = []
+    if name == "power":
+        args = [{"f": [r.ch(EXPONENTS) for _ in range(n)]}] if r.b(0.25) else [r.ch(EXPONENTS + [3, 1])]
+    elif name == "exponentiate":
+        args = [{"f": [r.dynz(0.25, 3.0, 8, signed=False) for _ in range(n)]}] if r.b(0.25) \
+            else [r.dynz(0.25, 3.0, 8, signed=False)]
+    elif name == "clip":
+        # bounds have mantissa 1.125 / 1.375: never on the grid of the arguments
+        w = r.i(0, 5)
+        lo, hi = -1.125 * 2. ** r.i(-6, 6), 1.375 * 2. ** r.i(-6, 6)
+        if r.b(0.3):
+            lo = 1.125 * 2. ** r.i(-6, 4)
+            hi = lo * 2. ** r.i(1, 3) * 1.375 / 1.125
+        if w == 0:
+            args = [{"f": [lo * (1 + (i % 2)) if lo < 0 else lo / (1 + (i % 2)) for i in range(n)]},
+                    {"f": [hi * (1 + (i % 3)) for i in range(n)]}]
+        elif w == 1:
+            args = [None, hi]
+        elif w == 2:
+            args = [lo, None]
+        elif w == 3:
+            args = [-r.i(1, 40), r.i(1, 40)]
+        else:
+            args = [lo, hi]
+    anp = _sweep_args({"args": args}, n)
+    posonly = name in ("sqrt", "log", "log10") or (name == "power" and not _is_posint(anp[0]))
+    zero_ok = name not in KINK and name not in ("reciprocal",) and not posonly
+
+    def mag(kmax, linmax):
+        w = r.i(0, 19)
+        if w < 12 or (w == 19 and not zero_ok):
+            return r.ch(MANT) * 2. ** r.i(-40, kmax)
+        if w < 17:
+            return r.i(0, min(64, linmax)) + r.i(1, 8) / 8.
+        if w < 19:
+            return r.i(0, linmax) + r.i(1, 8) / 8.
+        return 0.
+
+    pts = []
+    for i in range(n):
+        if not cplx:
+            x = mag(8, 440)
+            x = min(x, 448.)
+            if not posonly and r.b():
+                x = -x
+            if name == "log1p" and x <= -1:
+                x = -1 + r.ch(MANT) * 2. ** r.i(-40, -1)
+            if name == "clip":
+                while any(b is not None and x == b[i] for b in anp):
+                    x += 0.0625
+            if x == 0 and not zero_ok:
+                x = 0.375
+            pts.append(x)
+        else:
+            re, im = mag(5, 100), mag(5, 100)
+            re, im = min(re, 112.), min(im, 112.)
+            w = r.i(0, 9)
+            if w == 0:
+                im = 0.
+            elif w == 1:
+                re = 0.
+            if r.b():
+                re = -re
+            if r.b():
+                im = -im
+            z = complex(re, im)
+            if not _sweep_valid(name, np.array([z]), [None if b is None else b[i:i + 1] for b in anp], True)[0]:
+                z = complex(abs(re) if abs(re) <= 30 else 0.5, im if abs(im) <= 1.5 else 0.25)
+                if not _sweep_valid(name, np.array([z]), [None if b is None else b[i:i + 1] for b in anp], True)[0]:
+                    z = 0.5 + 0.25j
+            pts.append({"re": z.real, "im": z.imag})
+    pre = [r.i(-3, 3) for _ in range(n)] if r.b(0.4) else None
+    return {"name": name, "cplx": cplx, "route": (j + r.i(0, 5)) % 6, "args": args, "pts": pts, "pre": pre,
+            "dom": r.ch(["un", "rg"]), "wm": r.b()}
+
+
+def sweep_cases(tier, seed):
+    from nifty.cl.pointwise import ptw_dict
+    per = 6 if tier == "quick" else 120
+    res = []
+    for name in sorted(ptw_dict):
+        for cplx in (False, True):
+            if cplx and name in KINK:
+                continue
+            for j in range(per):
+                res.append(_sweep_recipe(seed, name, cplx, j))
     return res
 
 
